@@ -150,6 +150,14 @@ func (e *wsEnv) serveUpstream(u *upstream) {
 			if err := writeServerFrame(conn, b); err != nil {
 				return
 			}
+		case "dataerrors":
+			u.emitted++
+			pl := e.eventPayload(u, e.eventBase+u.index*10+u.emitted)
+			pl["errors"] = []interface{}{map[string]interface{}{"message": "partial failure upstream", "extensions": map[string]interface{}{"code": "PARTIAL"}}}
+			b, _ := json.Marshal(map[string]interface{}{"type": "data", "id": "1", "payload": pl})
+			if err := writeServerFrame(conn, b); err != nil {
+				return
+			}
 		case "errorpayload":
 			b, _ := json.Marshal(map[string]interface{}{"type": "data", "id": "1", "payload": map[string]interface{}{"data": nil, "errors": []interface{}{map[string]interface{}{"message": "upstream says no", "extensions": map[string]interface{}{"code": "UP"}}}}})
 			if err := writeServerFrame(conn, b); err != nil {
